@@ -75,15 +75,18 @@ PROPS = {
     ),
     "C06": dict(
         extra_modules=["CstModel.Proofs.Conc"],
-        tags=["C06", "C05"],   # the slot / lock discipline the counter compensation relies on is evaluated on the same executions
-        runs=runs([("conc:lifecycle", "release"), ("conc:traverse", "release"), ("miri:all", "miri")],
-                  [("conc:lifecycle", "release"), ("conc:lifecycle", "debug"), ("conc:traverse", "release"), ("conc:data", "release"), ("miri:all", "miri")]),
+        tags=["C06", "C05", "C08"],   # the slot / lock discipline the counter compensation relies on is evaluated on the same executions;
+                                      # the teardown releases data and resolver on whichever thread drops last: only sound for thread-safe ones (marker probes)
+        runs=runs([("conc:lifecycle", "release"), ("conc:traverse", "release"), ("miri:all", "miri"), ("probe:c08", "rustc")],
+                  [("conc:lifecycle", "release"), ("conc:lifecycle", "debug"), ("conc:traverse", "release"), ("conc:data", "release"), ("miri:all", "miri"), ("probe:c08", "rustc")]),
         rule="cases = executions under the deterministic scheduler of 8 fixed + 10 (thorough 60) random clone/drop/traverse/send programs over 1-3 threads (handles "
              "to inner nodes and tokens outliving the root handle, the last drop on any thread incl. the main thread first or last, creation races whose loser "
              "is discarded); all schedules with <= 1 (thorough 2) preemptions + random schedules; instrumentation oracle per execution: every NodeData block and "
              "the count cell are freed exactly once, never accessed after being freed, nothing stays live after the last handle is gone, and nothing is freed "
              "before; the event trace with the counter value after every RMW and the number of blocks freed by the teardown is replayed through the Lean model, "
-             "which must accept every event (a teardown event is only enabled when no handle is owned or owed); + the 7 free-running Miri programs of C07 on the un-hooked "
+             "which must accept every event (a teardown event is only enabled when no handle is owned or owed); the sequence of decrements and frees of every teardown must be the one "
+             "`Teardown.tearRoot` computes for the tree of installed elements (children before parents, left to right, two decrements per node, one per token, the root block "
+             "and the count cell last); + the marker probes of C08 (the last handle may be dropped on any thread: data and resolver must be thread-safe); + the 7 free-running Miri programs of C07 on the un-hooked "
              "crate (use-after-free, double free, leaks and races with the teardown under the language memory model; 4 (thorough 32) schedules each); "
              "non-trivial = the scheduler had a real choice",
         assumptions=["the green tree, resolver and per-node data are owned by red blocks (plain Rust ownership): their release is implied by the block being dropped exactly once",
@@ -257,14 +260,19 @@ PROPS = {
         not_yet_proved=[],
     ),
     "C10": dict(
-        runs=runs([("intern", "release"), ("intern", "lasso")],
-                  [("intern", "release"), ("intern", "lasso"), ("intern", "debug"), ("intern", "lasso-debug")]),
+        runs=runs([("intern", "release"), ("intern", "lasso"), ("conc:intern", "lasso")],
+                  [("intern", "release"), ("intern", "lasso"), ("intern", "debug"), ("intern", "lasso-debug"), ("conc:intern", "lasso"), ("conc:intern", "lasso-debug")]),
         rule="cases = raw-key probe batch + every intern sequence of length 4 (thorough 5) over {'', a, b, é, ab} per back end "
              "+ random long sequences per back end (incl. exhaustion of MicroSpur/MiniSpur key spaces); a case is non-trivial when "
-             "it re-interns an already interned string, hits a key-space error, or probes the raw conversion; distinct = distinct op text",
+             "it re-interns an already interned string, hits a key-space error, or probes the raw conversion; distinct = distinct op text; "
+             "+ concurrent interning (conc:intern): 2-8 free-running threads sweep overlapping vocabularies (300 to 40000, thorough 200000 strings; empty and multi-byte "
+             "ones included) into one `Arc<MultiThreadedTokenInterner>` / `&ThreadedRodeo<Spur>` / `&ThreadedRodeo<TokenKey>`, alternating the fallible and the panicking entry "
+             "point; every key is resolved at once through `try_resolve` and `resolve` by the thread that got it, all threads must agree on one key per string and one string "
+             "per key, every key must still resolve afterwards; for the smaller vocabularies the strings in key order are replayed through the model as a sequential history, "
+             "which must hand out the same keys",
         assumptions=[
             "lasso's Rodeo/ThreadedRodeo and indexmap's IndexSet are insertion-ordered sets (their internals are not modelled)",
-            "concurrent interning: the theorem quantifies over all interleavings of *atomic* intern steps; lasso's atomicity is trusted (exercised by the harness' multi-thread stress in thorough)",
+            "concurrent interning: the theorem quantifies over all interleavings of *atomic* intern steps; lasso's atomicity is trusted and exercised by the free-running multi-thread runs (not exhaustive: the interleavings are the ones the machine produces)",
         ],
         not_yet_proved=[],
     ),
